@@ -39,6 +39,7 @@ class Engine:
         self._varcache = {}
         self.solver = z3.Solver()
         self.solver.set("timeout", timeout_ms)
+        self.timeout_ms = timeout_ms
         self.background = []          # facts re-asserted in every path (e.g. table facts)
         self.prefix = []
         self.log = []
@@ -53,7 +54,8 @@ class Engine:
         self.stop = None              # callable -> True when exploration should stop early
         self.path_budget = None       # when set: after this many paths the unexplored prefixes are handed back in self.leftover
         self.leftover = []
-        self.on_path_end = None       # hook(engine) called after a completed path, before the solver frame is popped
+        self.on_path_end = None
+        self.on_path_fail = None       # hook(engine) called after a completed path, before the solver frame is popped
         self.frontier_depth = None    # when set: cut paths at this decision depth and collect prefixes
         self.frontier = []
         self.lin = LinStore()
@@ -332,6 +334,17 @@ class Engine:
                 self.stats["abandoned"] += 1
                 if len(self.limits) < 20:
                     self.limits.append(str(lim)[:200])
+                self._disarm()
+                if self.on_path_fail is not None:
+                    self.on_path_fail(self, "engine limit: " + str(lim))
+            except Exception as ex:
+                self._disarm()
+                if self.on_path_fail is not None and self.on_path_fail(self, f"{type(ex).__name__}: {ex}"):
+                    self.stats["abandoned"] += 1          # a concrete violation was confirmed on this path; the exception is its symptom
+                    if len(self.limits) < 20:
+                        self.limits.append(f"path ended by {type(ex).__name__} (concrete violation confirmed)")
+                else:
+                    raise
             finally:
                 self._disarm()
                 self.solver.pop()
